@@ -25,6 +25,7 @@ func deref(T types.Type) types.Type {
 
 func (fr *Frame) allocFresh(st *State, T types.Type, init Term) Term {
 	r := fr.run
+	r.allocN++
 	ref := r.havoc("new", "Int")
 	wmKey := r.eng.heapKeyAlloc()
 	wm := r.heapGet(st, wmKey)
